@@ -30,6 +30,7 @@ func runC09(r *Report, p *Program) {
 	c09R4(h, dm)
 	c09R5(h, dm)
 	c09R6(h, dm)
+	lineCountingRule(h, "R7")
 }
 
 // loopOverParam finds the loop whose continuation test compares with len(<parameter named name>).
